@@ -6,6 +6,7 @@ import (
 	"errors"
 	"fmt"
 	"strings"
+	"sync"
 
 	"github.com/casbin/casbin/v2/model"
 	"github.com/casbin/casbin/v2/persist"
@@ -30,6 +31,14 @@ type Adapter struct {
 	AfterLoad func()
 	// NoUpdateFiltered makes UpdateFilteredPolicies answer "not implemented".
 	NoUpdateFiltered bool
+	// OnLoad, if set, runs inside every LoadPolicy after the lines have been delivered (it stays
+	// set; used by the concurrent-history harness to force overlaps).
+	OnLoad func()
+	// OnWrite, if set, runs inside every mutating adapter call (AddPolicy, RemovePolicy, …).
+	OnWrite func(name string)
+	// mu guards the bookkeeping (log, counters) and the line list: LoadPolicy can run under the
+	// enforcer's read lock, concurrently with another LoadPolicy
+	mu sync.Mutex
 }
 
 var ErrInjected = errors.New("injected adapter failure")
@@ -39,6 +48,14 @@ func New() *Adapter { return &Adapter{LoadFailAfter: -1} }
 func (a *Adapter) Arm(k int) { a.Calls = 0; a.FailAt = k }
 
 func (a *Adapter) call(name string, args ...string) error {
+	a.mu.Lock()
+	defer a.mu.Unlock()
+	if a.OnWrite != nil && name != "LoadPolicy" && name != "SavePolicy" {
+		f := a.OnWrite
+		a.mu.Unlock()
+		f(name)
+		a.mu.Lock()
+	}
 	a.Calls++
 	if len(args) == 0 {
 		a.Log = append(a.Log, name)
@@ -90,7 +107,10 @@ func (a *Adapter) LoadPolicy(m model.Model) error {
 	if err := a.call("LoadPolicy"); err != nil {
 		return err
 	}
-	for i, l := range a.Lines {
+	a.mu.Lock()
+	lines := append([]Line(nil), a.Lines...)
+	a.mu.Unlock()
+	for i, l := range lines {
 		if a.LoadFailAfter >= 0 && i == a.LoadFailAfter {
 			a.LoadFailAfter = -1
 			return ErrInjected
@@ -98,6 +118,9 @@ func (a *Adapter) LoadPolicy(m model.Model) error {
 		if err := persist.LoadPolicyArray(append([]string{l.PType}, l.Rule...), m); err != nil {
 			return err
 		}
+	}
+	if a.OnLoad != nil {
+		a.OnLoad()
 	}
 	if a.LoadFailAfter >= 0 && a.LoadFailAfter >= len(a.Lines) {
 		a.LoadFailAfter = -1
